@@ -16,11 +16,11 @@ CHECKS = {
         text="TLC checks the three code-shaped scanning machines against the declarative folds for every abstract item stream within the bound (window crossed exhaustively with Window=3), generates concrete files around the real 50-item window with last-header-wins and u32 min_api variants whose expected answers the folds assign, and validates the real answers for generated, mutated and corpus files against the folds applied to the item stream the library's own iterator yielded.",
         design="4 C19", note="Item abstraction recorded by the harness; parser behaviour itself is C05/C06. Trusted: TLC, Json module, harness (canary-checked)."),
     "C01": dict(
-        technique="declarative TLA+ index/answer (Index.tla, Retrace.tla); TLC enumerates small mapping files (entry alphabet x sourceFile contexts, 5 byte-level variants) with spec-assigned answers replayed into mapper, mapper+params and cache; real sessions (generated + corpus files, query universe) validated by TLC trace spec that parses the bytes itself; cursor machine FrameIter.tla model-checked against the declarative answer and every next() call of the real iterators (incl. calls after exhaustion) validated step by step as an ordered log (stateful trace spec with deadlock = rejected line); handles obtained through From<&str>, From<(&str,bool)> and Clone are validated like the principal three",
+        technique="declarative TLA+ index/answer (Index.tla, Retrace.tla); TLC enumerates small mapping files (entry alphabet x sourceFile contexts, 5 byte-level variants) with spec-assigned answers replayed into mapper, mapper+params and cache; real sessions (generated + corpus files, query universe) validated by TLC trace spec that parses the bytes itself; cursor machine FrameIter.tla model-checked against the declarative answer and every next() call of the real iterators (incl. calls after exhaustion) validated step by step as an ordered log (stateful trace spec with deadlock = rejected line); handles obtained through From<&str>, From<(&str,bool)> and Clone are validated like the principal three; corpus-scale files (9.7k and 29k lines): handles built from the whole file, answers validated class block by class block (Trace_Blocks)",
         text="Exhaustive over single entries (8 ranges x 6 original ranges x 3 foreign classes x 3 file contexts) and bounded pairs, each in LF/CRLF/CR/noise/permuted variants, 9 lines incl. 2^32 and 2^64-1 extremes, file present/absent; plus seeded sessions over generated and corpus mappings where TLC re-derives every answer from the bytes.",
         design="4 C01", note="Bounded alphabets; sampled sessions. Trusted: TLC, Json module, harness encoders (canary-checked)."),
     "C02": dict(
-        technique="same TLA+ answer function as C01/C03/C04 used as the single reference for all three handles; TLC-generated files (blocks, sourceFile placement, adversarial names) replayed; real sessions validated by TLC; builder step machine (Builder.tla: class in progress, sourceFile register, per-class dedup set, one-record lookahead) model-checked against the declarative index in mapper and cache-writer variants, pinned valueless-header variant refuted",
+        technique="same TLA+ answer function as C01/C03/C04 used as the single reference for all three handles; TLC-generated files (blocks, sourceFile placement, adversarial names) replayed; real sessions validated by TLC; builder step machine (Builder.tla: class in progress, sourceFile register, per-class dedup set, one-record lookahead) model-checked against the declarative index in mapper and cache-writer variants, pinned valueless-header variant refuted; corpus-scale block-wise validation (Trace_Blocks); random PROGRAMS of API calls over several mappings, handles, cache files and interleaved iterators replayed through the session-level machine System.tla (Trace_System, stateful); text/typed/signature sessions (Trace_Text)",
         text="Mapper (with and without parameter index) and cache are each compared, query for query, with Retrace!Answer over the declarative index of the same bytes; any disagreement between two handles is therefore a rejected case or trace event.",
         design="4 C02", note="Stack-trace text/typed and signature agreement are exercised under C07/C08/C16. Bounded + sampled."),
     "C03": dict(
@@ -52,11 +52,11 @@ CHECKS = {
         text="For generated mappings (0..45 classes, member-less classes, shared/non-ASCII/>127-byte strings, noise) and corpus files, TLC decodes the written bytes itself and checks magic/version/counts, strict class order, exact tiling of member and by-params ranges in class order, intra-class order, 8-byte alignment with zero padding, string readability/sentinels, exact length, equality of the decoded index with Index!Blocks, and that the library self-test returned.",
         design="4 C09", note="Files are decoded whole by TLC (sizes up to a few 10 KB); sampled inputs. Trusted: TLC, Json module, harness byte recorder (canary-checked)."),
     "C11": dict(
-        technique="acceptance rule ParseOutcome in TLA+ model-checked over all file shapes x every cut point x header edits (MC_CacheParse), crash-leaves-prefix invariant of the writer/sink protocol (MC_CacheIO), and real ProguardCache::parse outcomes on every prefix / header edit of real files validated by TLC",
+        technique="acceptance rule ParseOutcome in TLA+ model-checked over all file shapes x every cut point x header edits (MC_CacheParse), crash-leaves-prefix invariant of the writer/sink protocol (MC_CacheIO), and real ProguardCache::parse outcomes on every prefix / header edit of real files validated by TLC; the two statements 'no torn file is accepted' and 'the complete file is accepted' proved for ALL sizes with TLAPS over the integer rule (spec/CacheLayout.tla, spec/proofs/CacheLayoutProofs.tla, 48 obligations), which MC_CacheParse ties to the byte-level rule",
         text="Exhaustive for shapes up to 2x2x2 entries and 5 string bytes (quick) / 3x3x3x9: every strict prefix rejected, stated error kinds for flipped/foreign magic, version, over-declared sections and strings; on real files every prefix of the first three files, sampled prefixes of the rest and 40+ single-field header edits each must produce exactly the outcome (kind, expected, found) ParseOutcome predicts.",
         design="4 C11", note="Since no strict prefix is accepted, the 'or answers like the full file' branch is vacuous and any acceptance is reported."),
     "C14": dict(
-        technique="trace validation: the same mapping written twice in-process, by 4 threads and by >=8 (quick) / 32 separately started processes; TLC checks all copies byte-identical and length = header-implied length (CacheFormat!ImpliedLength); histories: writes after failed writes (sink failing at call i), after a panicking sink and after writes/reads of other mappings must reproduce the same bytes",
+        technique="trace validation: the same mapping written twice in-process, by 4 threads and by >=8 (quick) / 32 separately started processes; TLC checks all copies byte-identical and length = header-implied length (CacheFormat!ImpliedLength); histories: writes after failed writes (sink failing at call i), after a panicking sink and after writes/reads of other mappings must reproduce the same bytes; random API programs replayed through System.tla: every write of one mapping must give the bytes of its first write whatever was created, parsed, queried or iterated in between",
         text="Different processes have different hash seeds and addresses; any dependence of the output on HashMap/HashSet iteration order or uninitialised padding shows up as differing copies.",
         design="4 C14", note="Sampled mappings (generated + small corpus files). The writer model with nondeterministic container order is future work listed in DESIGN."),
     "C15": dict(
